@@ -289,6 +289,45 @@ AppSetsContentType(p) == p.ctype \/ (p.script # "direct" /\ p.text = "unset" /\ 
 Reportable(iface, k, p) ==
     iface = "client-wsgi" => ~(k = "plain" /\ p.status \in {204, 304} /\ AppSetsContentType(p))
 
+(* ------------------------------------------------------------------ response side: body sources delivered incrementally *)
+(* Instead of bytes a responder may hand the framework a body SOURCE (resp.stream):
+     "file"  a file-like object: read(n).  Sync on WSGI, where it is consumed either by the framework's own
+             iterator or by the server's wsgi.file_wrapper; async on ASGI.
+     "iter"  an iterable (WSGI) / async iterable (ASGI) of chunks.
+   A source holds data d and delivers it in blocks whose sizes the SOURCE alone decides (a pipe, a socket, a
+   decompressor): `sizes` is its delivery pattern.
+     file-like: read(n) returns the next block -- never empty before the end, never more than n bytes, possibly
+                FEWER than n bytes although more data follows.  The end of the data is signalled by b'' and by
+                nothing else.
+     iterable:  yields the blocks, empty ones included; the end is the exhaustion of the iterator.
+   The response body is the concatenation of everything the source delivers until it signals the end
+   (state machine, invariants BodyIsWholeSource / ResponseEqualAcrossStacks and the wrong-design switches in
+   ServerIfaceDelivery.tla). *)
+SourceKinds == {"file", "iter"}
+StackConsumers == {"wsgi", "wsgi-file-wrapper", "asgi"}
+ConsumersOf(kind) == IF kind = "file" THEN StackConsumers ELSE {"wsgi", "asgi"}      \* an iterable is not wrapped
+MinBlock(kind) == IF kind = "file" THEN 1 ELSE 0
+(* a legal delivery of d by a source of this kind, n = the block size the consumer asks for *)
+DeliveryOK(kind, d, sizes, n) ==
+    /\ SumSeq(sizes) = Len(d)
+    /\ \A i \in 1..Len(sizes) : sizes[i] >= MinBlock(kind) /\ (kind = "file" => sizes[i] <= n)
+RECURSIVE Blocks(_, _)
+Blocks(d, sizes) == IF sizes = <<>> THEN <<>> ELSE <<Take(d, sizes[1])>> \o Blocks(Drop(d, sizes[1]), Tail(sizes))
+WholeSource(d, sizes) == Concat(Blocks(d, sizes))
+OCTETS == <<97, 112, 112, 108, 105, 99, 97, 116, 105, 111, 110, 47, 111, 99, 116, 101, 116, 45, 115, 116, 114, 101, 97, 109>>   \* application/octet-stream
+(* the response of a streaming responder p = [status, announce] over data d whose delivery yielded `body`:
+   a Content-Length appears iff the responder announced one (resp.content_length = len(d)); neither stack adds one *)
+StreamedResponse(p, d, body) ==
+    [status |-> p.status, ctype |-> OCTETS, has_clen |-> p.announce, clen |-> IF p.announce THEN Len(d) ELSE NONE,
+     body |-> body]
+(* the six ways a streamed response is produced and observed: raw server drivers and falcon.testing, the WSGI ones
+   with and without a wsgi.file_wrapper in the environ *)
+DeliveryDrivers == {"raw-wsgi", "raw-wsgi-fw", "raw-asgi", "client-wsgi", "client-wsgi-fw", "client-asgi"}
+ConsumerOf(driver, kind) ==
+    CASE driver \in {"raw-asgi", "client-asgi"} -> "asgi"
+      [] driver \in {"raw-wsgi-fw", "client-wsgi-fw"} /\ kind = "file" -> "wsgi-file-wrapper"
+      [] OTHER -> "wsgi"
+
 (* ------------------------------------------------------------------ histories *)
 (* One application object serves many requests.  The mutable containers the API hands out with a
    request or its response (req.params, req.context, the req.cookies / req.headers mappings, the
